@@ -127,8 +127,14 @@ def continuum_invariant_problems(c):
 _tls = threading.local()
 
 
-def install_continuum_invariant(tag="M-INV", on_fail=None):
-    """icontract class invariant on Continuum.  The condition records and returns True."""
+INV = {"stride": 1, "calls": 0}
+
+
+def install_continuum_invariant(tag="M-INV", on_fail=None, stride=1):
+    """icontract class invariant on Continuum.  The condition records and returns True.
+    stride > 1: the (O(units)) evaluation is done on one call out of `stride` (hot loops call add/remove thousands
+    of times); only real evaluations are counted."""
+    INV["stride"] = stride
     import icontract
     from pygamma_agreement import Continuum
     if getattr(Continuum, "_verif_inv_installed", False):
@@ -136,6 +142,9 @@ def install_continuum_invariant(tag="M-INV", on_fail=None):
 
     def continuum_invariant(self):
         if getattr(_tls, "inv_off", False):
+            return True
+        INV["calls"] += 1
+        if INV["stride"] > 1 and INV["calls"] % INV["stride"]:
             return True
         ctx = ctxmod.CTX
         ctx.count(tag)
